@@ -5,7 +5,6 @@ from numbers import Number
 import numpy as np
 from packaging.version import Version
 
-from unyt import delta_degC
 from unyt.array import NULL_UNIT, unyt_array, unyt_quantity
 from unyt.dimensions import temperature
 from unyt.exceptions import (
@@ -900,16 +899,14 @@ def apply_over_axes(func, a, axes):
 
 def diff_helper(func, arr, *args, **kwargs):
     u = getattr(arr, "units", NULL_UNIT)
-    if u.dimensions is temperature:
-        if u.base_offset:
-            raise InvalidUnitOperation(
-                "Quantities with units of Fahrenheit or Celsius "
-                "cannot be multiplied, divided, subtracted or added."
-            )
-        ret_units = delta_degC
-    else:
-        ret_units = u
-    return func._implementation(np.asarray(arr), *args, **kwargs) * ret_units
+    if u.dimensions is temperature and u.base_offset:
+        raise InvalidUnitOperation(
+            "Quantities with units of Fahrenheit or Celsius "
+            "cannot be multiplied, divided, subtracted or added."
+        )
+    # units without an offset (K, R, mK, delta_degF, ...) already are difference
+    # scales: the differences keep the degree size of the input
+    return func._implementation(np.asarray(arr), *args, **kwargs) * u
 
 
 @implements(np.diff)
